@@ -73,7 +73,7 @@ PROPS = {
         "verus": [("prettydec", ["from_str"]),
                   ("bookkeep", ["PriceRepositoryBuilder::insert_price", "callsite:insert_impl division", "check_balance", "posting_price_event", "add_transaction", "process_posting"]),
                   ("amounts", None), ("balance", None), ("intern", ["InternStore::insert_canonical_impl", "InternStore::insert_alias_impl"])],
-        "kani": {"quick": ["parse_error_new_bounded", "compute_line_number_bounded", "clip_complete", "try_find_char_no_panic"], "thorough": ["display_roundtrip_bounded", "parsed_context_line_and_slice"]},
+        "kani": {"quick": ["parse_error_new_bounded", "compute_line_number_bounded", "clip_complete", "try_find_char_no_panic"], "thorough": ["parsed_context_line_and_slice"]},
         "family": ("c06", {"quick": ["quick"], "thorough": ["thorough"]}),
         "technique": "contract-based deductive verification (Verus safety/termination obligations of the contracted kernels) + Kani with unwinding assertions on the real crate for the loops that live in std",
         "explanation": "PARTIAL.  A deductive verifier proves absence of panics and termination by default; C06 collects those obligations for the kernels that sit on the hazards the property names: "
@@ -84,7 +84,7 @@ PROPS = {
         "units_doc": ["see C01, C02, C03, C07, C12 units", "core/src/parse/error.rs: ParseError::new, compute_line_number (Kani)", "core/src/parse/adaptor.rs: clip (Kani)", "core/src/syntax/pretty_decimal.rs: Display (Kani, bounded)"],
         "assumptions": [L0_DECIMAL, L0_HANDLES, L0_STD, L1_AMOUNT, L1_BOOK, STUBS, "overflow panics of Decimal + - * are outside C06 by its own 'representable range' clause",
                         "Kani: text <= 4 characters over {LF, CR, a, ;, あ (3 bytes)}"],
-        "bounded": ["parse_error_new_bounded (text <= 4 characters incl. a 3-byte one)", "compute_line_number_bounded (same)", "try_find_char_no_panic (text <= 3 characters)", "display_roundtrip_bounded (i16 mantissa, scale <= 2)"],
+        "bounded": ["parse_error_new_bounded (text <= 4 characters incl. a 3-byte one)", "compute_line_number_bounded (same)", "try_find_char_no_panic (text <= 3 characters)"],
         "not_decided": ["winnow parser totality on arbitrary text", "self-including files (load_impl recursion has no measure)", "cli main error mapping"],
         "unwind_is_violation": ["parse_error_new_bounded"],
     },
@@ -106,7 +106,7 @@ PROPS = {
     "C07": {
         "level": "proof",
         "verus": [("prettydec", None), ("rescale", None)],
-        "kani": {"quick": [], "thorough": ["display_roundtrip_bounded"]},
+        "kani": {"quick": [], "thorough": []},
         "family": ("c07", {"quick": ["5"], "thorough": ["6"]}),
         "explanation": "Verus discharges, for strings of every length, that PrettyDecimal::from_str (text extracted from /repo on this run) "
                        "returns Ok exactly for well-formed representable literals and then carries exactly the written mantissa, scale and grouping style; "
@@ -171,7 +171,7 @@ PROPS = {
     "C16": {
         "level": "proof",
         "verus": [("csvsign", None)],
-        "kani": {"quick": [], "thorough": ["to_double_entry_signs"]},
+        "kani": {"quick": [], "thorough": []},
         "family": ("c16", {"quick": [], "thorough": []}),
         "explanation": "PARTIAL.  Verus proves the sign clauses on the real functions: FieldMap::amount books a non-empty credit column as +credit, otherwise a non-empty debit column as -debit, neither as an error, and an "
                        "`amount` column as +amount for an asset and -amount for a liability account; amount_with_sign gives the secondary amount the requested sign and keeps its magnitude and commodity; Neg for "
@@ -188,15 +188,18 @@ PROPS = {
         "level": "other",
         "verus": [("config", None)],
         "kani": {"quick": ["extractor_2rules_or1_and2"], "thorough": ["extractor_2rules_or2_and1", "extractor_matches_statement_2rules"]},
+        "family": ("c17", {"quick": [], "thorough": ["thorough"]}),
         "technique": "contract-based deductive verification: Verus on ConfigFragment::merge; Kani on the real generic extractor code instantiated with a symbolic matcher (callee replaced by 'any answer')",
         "explanation": "PARTIAL / BOUNDED.  Verus proves ConfigFragment::merge: the later document overrides each scalar setting that it sets and the rewrite rules are concatenated in order.  Kani runs the real "
                        "Extractor::extract / ExtractRule::extract / MatchOrExpr::extract / MatchAndExpr::extract / Fragment += / Fragment + Matched with a matcher whose answers are symbolic per payee seen, and compares all five "
                        "Fragment fields with the statement written as plain loops (rules in order each seeing the rewritten payee; OR = first matching element; AND = all fields; captures then rule payee override; account "
-                       "replaces; cleared iff some matching account rule is not pending) for <= 2 rules x <= 2 OR x <= 2 AND.  NOT decided: ConfigSet::select_impl (substring match, stable sort, fold), regexes, YAML.",
+                       "replaces; cleared iff some matching account rule is not pending) for <= 2 rules x <= 2 OR x <= 2 AND.  NOT decided by proof: ConfigSet::select_impl (substring match, stable sort, fold), regexes, YAML: "
+                       "these are exercised, bounded, by the c17 replay family (layered documents through load_from_yaml + select; rule lists of <= 3 rules through the real CSV import) against a twin of the statement.",
         "units_doc": ["cli/src/import/config.rs: ConfigFragment::merge", "cli/src/import/extract.rs: Extractor::extract, ExtractRule::extract, MatchOrExpr::extract, MatchAndExpr::extract, AddAssign for Fragment, Add<Matched> for Fragment (Kani, thorough)"],
         "assumptions": ["stand-ins for Encoding, AccountCommodityConfig, FormatSpec, RewriteRule (merge never looks inside)", "Option::or spec added by hand"],
-        "bounded": ["quick: 2 rules x 1 OR-element x <= 2 AND-fields (about 4 min of CBMC); thorough: 2 rules x <= 2 OR x 1 field, and <= 2 rules x <= 2 OR x <= 2 AND (about 26 min); names from {None, p1, p2}"],
-        "not_decided": ["ConfigSet::select_impl ordering and matching", "regex matchers and capture groups", "Income:/Expenses:Unknown fallback (decided under C16's Kani harness)"],
+        "bounded": ["quick: 2 rules x 1 OR-element x <= 2 AND-fields (about 4 min of CBMC); thorough: 2 rules x <= 2 OR x 1 field, and <= 2 rules x <= 2 OR x <= 2 AND (about 26 min); names from {None, p1, p2}",
+                    "c17 family: base document + every ordered selection of <= 3 of 7 documents x 5 file paths; every list of <= 2 (quick: a third of the 3-rule lists; thorough: all) of 8 rules x 6 CSV rows"],
+        "not_decided": ["ConfigSet::select_impl ordering and matching (bounded family only)", "regex matchers and capture groups (bounded family only)", "Income:/Expenses:Unknown fallback (decided under C16's Kani harness)"],
     },
     "C19": {
         "level": "proof",
